@@ -32,19 +32,23 @@ def _p(text, ref):
 
 
 CLAIMED.update({
-    "C01": _p("TLC enumerates every well-typed query of the core LINQ profile within the size bound (derivation machine QueryGen); each is translated by the real "
+    "C01": _p("TLC enumerates every well-typed query of the core LINQ profile within the size bound (derivation machine QueryGen), of focused profiles (tuple / dict "
+              "plumbing, lambdas applied on the spot, the ATLAS jet accessors, multi-column rows, conditionals around First(), once-per-event scalars in filtered rows) "
+              "and random deep derivations over the union of the features; each is translated by the real "
               "code on the three backends, the emitted C++ is compiled unmodified against a model data model and run on TLC-generated events; TLC validates every "
               "observed event (rows, faults) against Denote(q, e).", "DESIGN.md section 5 C01, sections 2-3"),
-    "C02": _p("Same enumeration (core + schema profiles): every accepted query's package must be complete (files, executable entry script, no unrendered directive) and "
+    "C02": _p("Same enumeration (core, schema, fault, multi-column row, C++-function and random deep profiles): every accepted query's package must be complete (files, executable entry script, no unrendered directive) and "
               "its C++ must compile and link against the model data model and book exactly one tree; judged by TLC on the logged results.", "DESIGN.md section 5 C02"),
     "C03": _p("TLC enumerates all terminal forms x element kinds, with implicit and explicit (AsROOTTTree, right and wrong label counts) trees; the branch list logged by the "
               "model TTree (names, C++ types, storage identity) and the returned descriptor are validated by TLC against Schema(q); rows confirm the bound storage is what gets filled.",
               "DESIGN.md section 5 C03"),
-    "C04": _p("TLC enumerates partial operations (First, index, link dereference, missing bank) under and outside guards; per event the job must fault exactly when Denote(q, e) "
+    "C04": _p("TLC enumerates partial operations (First, index, link dereference, null smart references behind the CMS isNonnull guard, missing bank) under and outside guards "
+              "(and / or / conditional / Where, with distinct values in the arms); per event the job must fault exactly when Denote(q, e) "
               "is a fault, and otherwise write exactly the denoted rows (lazy and/or/conditional/Where in the specification).", "DESIGN.md section 5 C04"),
     "C05": _p("Every case is run over event histories (singletons in fresh job instances, permutations, reversed and shuffled sequences in one instance); TLC's trace spec has no "
               "inter-event state and its reference-free clause StateCarried requires each event's rows in any history to equal its rows alone.", "DESIGN.md section 5 C05"),
-    "C13": _p("TLC enumerates the operator x operand-kind table exhaustively (plus a sampled wider arithmetic profile); values and column kinds computed by the compiled job are "
+    "C13": _p("TLC enumerates the operator x operand-kind table exhaustively (plus a sampled wider arithmetic profile and a profile of conditionals as columns and inside "
+              "Aggregate bodies); values and column kinds computed by the compiled job are "
               "validated by TLC against exact-rational Python numerics (Values.tla).", "DESIGN.md section 5 C13"),
 })
 
